@@ -22,11 +22,7 @@ def build_compiler(backend_name, which):
     atexit.register(shutil.rmtree, d, True)
     out = os.path.join(d, 'out')
     os.makedirs(out)
-    args = list(D.BACKENDS[backend_name])
-    if backend_name == 'tsd_types':
-        tpl = os.path.join(d, 'types_template.d.ts')
-        open(tpl, 'w').write('/*TYPES*/\n')
-        args = [tpl]
+    args = D.with_template(backend_name, d)
     c = Compiler(specs_to_ir(D.spec_set(which)), importlib.import_module('stone.backends.' + D.module_of(backend_name)), args, out,
                  clean_build=False)
     c._verif = (backend_name, which, d, out)
